@@ -870,7 +870,10 @@ func c05ArgFlow(c *core.Ctx) {
 			ast.Inspect(fd.Body, func(nd ast.Node) bool {
 				switch x := nd.(type) {
 				case *ast.CallExpr:
-					if core.IsBuiltin(info, x, "make") {
+					if core.IsBuiltin(info, x, "make") && len(x.Args) > 1 {
+						if _, isMap := info.TypeOf(x.Args[0]).Underlying().(*types.Map); isMap {
+							return true // a negative size hint of a map is ignored by the runtime
+						}
 						for _, a := range x.Args[1:] {
 							sinks = append(sinks, sink{a, x, 0, false, "the size of make"})
 						}
